@@ -193,6 +193,76 @@
 //!     `pub use self::parse::parse_float;`).  A missing / unparsable front-end file, or a function
 //!     that cannot be translated, is OMITTED in that front-end's output file only.
 //!
+//! # CHECKS THAT MAKE THE TRANSLATION FAIL CLOSED
+//!
+//! The rules above read the constructs they understand and resolve names by their spelling.  The
+//! following checks make sure that nothing else in the source can change what those constructs
+//! and names mean.  C-ATTR .. C-MOD are the pre-pass (check.rs), run over every file that is read
+//! (and, for C-MOD, the others); a problem in lib.rs, table.rs or a file that holds declarations of
+//! rules 9-10 (num.rs, extended_float.rs, number.rs, bellerophon.rs, table_lemire.rs) is exit 2; a
+//! problem in mask.rs, rounding.rs, lemire.rs, slow.rs, parse.rs omits every function of that file
+//! (and its callers); in bigint.rs, stackvec.rs, heapvec.rs, table_small.rs everything built on the
+//! limb types; in a front-end file that front-end.  The others are checks of the lowering (the
+//! function is OMITTED).  redteam_check.sh / redteam_extra.sh are the regression tests.
+//!
+//! C-ATTR   every attribute anywhere in a file (items, statements, expressions, match arms,
+//!          fields, parameters, ..) must be harmless by name (doc, inline, allow, derive, must_use,
+//!          test, cold, warn, deny, deprecated, rustfmt::*) or one of the `cfg` / `cfg_attr` forms
+//!          present today, whitelisted by (file, item, exact predicate) in check.rs; the statement
+//!          forms of rules 12 / 21 (`#[cfg(feature = "nightly")] let`, `#[cfg([not](feature =
+//!          "compact"))]` on a `return ..;` / `{ .. }` statement) are accepted everywhere.  So no
+//!          `#[cfg(any())]` decoy, `#[cfg_attr(..)]`, `#[path]`, `#[macro_use]`, .. can hide or
+//!          replace code.  Macro bodies and `debug_assert!` arguments are token trees the pre-pass
+//!          cannot see: their expansion may contain no attribute and no item at all.
+//! C-DUP    no name is defined twice in a file (fn, const, static, type, struct, enum, trait, mod,
+//!          macro_rules, import; methods per impl; impl blocks per type/trait) unless every
+//!          definition carries a whitelisted `cfg` (the Limb / VecType / LARGE_POW5 selections);
+//!          the driver also refuses a target with two definitions, a macro defined twice, a method
+//!          found both in an inherent impl and in `impl Ord` (the two delegation tables are kept
+//!          apart), and (C-FIELD) a struct literal that gives a field twice.
+//! C-NAME   the names with a fixed meaning - the std names `Some None Ok Err Option Result
+//!          debug_assert core std Iterator Clone Fn`, the primitive type names, every translated
+//!          function, `int_pow_fast_path`, `FastPathRadix`, `Float`, the struct / limb / table names
+//!          of rules 9, 14, 21, `minimal_lexical` - may not be defined by any item (fn, const,
+//!          static, type, struct, enum, trait, mod, type parameter; macros: `debug_assert`) outside
+//!          the one file that is their home.
+//! C-USE    every `use` leaf (also inside function bodies) must be one of the imports present
+//!          today, whitelisted by (file, path); no `as` renames, no other globs, no `extern crate`
+//!          but `alloc` (lib.rs) / `minimal_lexical` (front-ends).  So an imported name is what the
+//!          translator assumes, and no trait import can change a method call.
+//! C-LOCAL  no items inside function bodies (fn, static, type, struct, enum, trait, impl, mod,
+//!          macro_rules), except `const NAME` with an upper-case name that is not mentioned earlier
+//!          in the function (constants are visible in their whole block) and shadows nothing.
+//! C-PAT    an identifier pattern may not be spelled like a constant / static / unit struct /
+//!          upper-case import of the file or a local constant (it would be a constant pattern).
+//! C-IMPL   every `impl` block must be one of those present today (file, trait, self type) and may
+//!          only define the functions it defines today: no inherent `iter_mut` / `cmp` / `default`
+//!          beating the slice / `Ord` / derived method that the translator maps, no `impl Float`
+//!          overriding a translated default method, no manual `PartialEq` for `ExtendedFloat`.
+//! C-MOD    lib.rs declares each file that is read exactly once as a plain `mod x;` (no `#[path]`,
+//!          no body); no inline modules, no `mod x;` elsewhere, no item-position macro
+//!          invocations, no `include!`.  The modules that are not read (fpu, libm,
+//!          table_bellerophon, any new one) may not contain an impl for a mapped type or of `Float`
+//!          (impls can live anywhere), a `mod x;` or `include!`.  `rs2coq <src-dir>` applies the
+//!          pre-pass to the extension's files as well.
+//! C-GENERIC  generic arguments of expression paths and method calls are not translated: only the
+//!          function's own `F` and `_` are accepted (`moderate_path::<f64>(..)` is refused);
+//!          qualified paths `<T as Trait>::x` are refused; a type path may have no module prefix
+//!          (except `cmp::Ordering`) and generic arguments only on `Option` / `ReverseView`; bounds
+//!          are `Fn`, `Iterator`, `Clone`, `Float`, `minimal_lexical::Float` by their full path.
+//! C-REFMUT `&e` is transparent, `&mut e` is not: it is only accepted as the argument for a `&mut`
+//!          parameter (so `f(&mut it)` for a by-value iterator parameter is refused).
+//! C-STALE  operands are evaluated left to right, pure operands are kept as terms: when a later
+//!          sibling operand (tuple component, call / method argument, struct field, binary operand,
+//!          index, indexed store) rebinds a variable that an earlier pure operand mentions, the
+//!          expression is refused (the term would read the new value).
+//! C-LOST   where only the value of a sub-expression is exported - the right operand of `&&` /
+//!          `||`, the argument of `debug_assert!`, match guards, closures of `any` / `map_or` /
+//!          `take_while`, effect-free expressions, the condition of a rule 11 `while` - the
+//!          sub-expression may not assign any variable (the update would be lost).
+//! C-FORITER  no `break` of an enclosing loop from inside `for p in &mut it` (the advanced iterator
+//!          only exists after the loop).
+//!
 //! Anything else (other statements, patterns, methods, macros, types, labelled blocks, `continue`,
 //! …) is an error, and the translator fails closed
 //! PER FUNCTION: a function that cannot be translated is omitted from the output (a comment
@@ -203,6 +273,7 @@
 //! meaningless (a source file is missing or does not parse, or a struct / trait / table
 //! declaration that the mapping of rules 9-10 relies on has changed).
 
+mod check;
 mod ctrl;
 mod emit;
 mod expr;
@@ -539,6 +610,85 @@ fn find_fn<'a>(file: &'a syn::File, owner: &str, name: &str) -> Option<(&'a syn:
     None
 }
 
+/// how many definitions `find_fn` could have picked (more than one: refuse, rustc takes the one
+/// whose `cfg` holds)
+fn count_fn(file: &syn::File, owner: &str, name: &str) -> usize {
+    let mut n = 0;
+    for it in &file.items {
+        match it {
+            syn::Item::Fn(f) if owner.is_empty() && f.sig.ident == name => n += 1,
+            syn::Item::Trait(t) if t.ident == owner => {
+                n += t.items.iter().filter(|ti| matches!(ti, syn::TraitItem::Fn(f) if f.sig.ident == name)).count();
+            }
+            syn::Item::Impl(im) if im.trait_.is_none() || (owner == "ReverseView" && name == "index") => {
+                if let syn::Type::Path(p) = &*im.self_ty {
+                    if p.path.segments.last().map(|s| s.ident == owner).unwrap_or(false) {
+                        n += im.items.iter().filter(|ii| matches!(ii, syn::ImplItem::Fn(f) if f.sig.ident == name)).count();
+                    }
+                }
+            }
+            _ => {}
+        }
+    }
+    n
+}
+
+/// the names with a fixed meaning in the library files (check C-NAME / C-USE)
+fn known_lib() -> check::Known {
+    let mut k = check::Known::new();
+    for t in TARGETS {
+        if t.owner.is_empty() {
+            k.define(t.name, t.file);
+        }
+    }
+    for (n, f) in [
+        ("int_pow_fast_path", "num.rs"),
+        ("FastPathRadix", "num.rs"),
+        ("Float", "num.rs"),
+        ("ExtendedFloat", "extended_float.rs"),
+        ("Number", "number.rs"),
+        ("BellerophonPowers", "bellerophon.rs"),
+        ("Limb", "bigint.rs"),
+        ("Wide", "bigint.rs"),
+        ("LIMB_BITS", "bigint.rs"),
+        ("VecType", "bigint.rs"),
+        ("Bigint", "bigint.rs"),
+        ("ReverseView", "bigint.rs"),
+        ("shl_limbs", "bigint.rs"),
+        ("BIGINT_LIMBS", "bigint.rs"),
+        ("StackVec", "stackvec.rs"),
+        ("HeapVec", "heapvec.rs"),
+        ("SMALLEST_POWER_OF_FIVE", "table_lemire.rs"),
+        ("LARGEST_POWER_OF_FIVE", "table_lemire.rs"),
+        ("POWER_OF_FIVE_128", "table_lemire.rs"),
+        ("LARGE_POW5", "table_small.rs"),
+        ("LARGE_POW5_STEP", "table_small.rs"),
+    ] {
+        k.define(n, f);
+    }
+    // defined in files that are not read (or in core): nobody may define them, only import them
+    k.external("BASE10_POWERS", &["crate::table::BASE10_POWERS"]);
+    k.external("bigint", &["crate::bigint"]);
+    k.external("cmp", &["core::cmp"]);
+    k.external("minimal_lexical", &[]);
+    // the public re-exports of lib.rs
+    k.import("Float", "self::num::Float");
+    k.import("parse_float", "self::parse::parse_float");
+    k
+}
+
+/// the names with a fixed meaning in one front-end file
+fn known_front(fkey: &str) -> check::Known {
+    let mut k = check::Known::new();
+    for (n, _) in FRONT_FNS.iter() {
+        k.home.entry(n.to_string()).or_default().push(fkey.to_string());
+    }
+    for n in ["minimal_lexical", "Float", "cmp"] {
+        k.external(n, &[]);
+    }
+    k
+}
+
 /// generic parameters: `Cb: Fn(&mut ExtendedFloat, i32)` bounds → callback types,
 /// `Iter: Iterator<Item = &'a u8> [+ Clone]` → a digit iterator (rule 14)
 fn generic_types(sig: &syn::Signature) -> R<HashMap<String, Ty>> {
@@ -547,6 +697,11 @@ fn generic_types(sig: &syn::Signature) -> R<HashMap<String, Ty>> {
         for b in bounds {
             if let syn::TypeParamBound::Trait(tb) = b {
                 let seg = tb.path.segments.last().unwrap();
+                let full: Vec<String> = tb.path.segments.iter().map(|s| s.ident.to_string()).collect();
+                let full = full.join("::");
+                if !matches!(full.as_str(), "Fn" | "Iterator" | "Clone" | "Float" | "minimal_lexical::Float") {
+                    return err(tb.span(), format!("unsupported bound `{}`", full));
+                }
                 if seg.ident == "Fn" {
                     if let syn::PathArguments::Parenthesized(pa) = &seg.arguments {
                         let mut ps = vec![];
@@ -602,6 +757,7 @@ fn translate(g: &Globals, tg: &Target, sig: &syn::Signature, body: &syn::Block) 
     let name = sig.ident.to_string();
     let mut cx = Cx::new(g);
     cx.tparams = generic_types(sig)?;
+    cx.float_param = sig.generics.params.iter().any(|gp| matches!(gp, syn::GenericParam::Type(tp) if tp.ident == "F"));
     cx.loop_fuel = tg.fuel;
     cx.fuels = tg.fuels.iter().map(|s| s.to_string()).collect();
     cx.file = tg.file.to_string();
@@ -791,6 +947,12 @@ fn collect_delegations(files: &HashMap<String, syn::File>, g: &mut Globals) {
                     for ii in &im.items {
                         if let syn::ImplItem::Fn(f) = ii {
                             let self_ty = if vec_like { Ty::Vec } else { Ty::Big };
+                            // an inherent method beats the trait method of the same name: the two
+                            // tables must not overlap (and no name may occur twice)
+                            if m.contains_key(&f.sig.ident.to_string()) {
+                                m.insert(f.sig.ident.to_string(), Err("defined more than once (inherent / `Ord` / repeated impl)".to_string()));
+                                continue;
+                            }
                             let d = deleg_of(&f.sig, &f.block, vec_like).map(|mut d| {
                                 d.ret = match &f.sig.output {
                                     syn::ReturnType::Default => Some(Ty::Unit),
@@ -844,6 +1006,58 @@ fn main() {
     if ext {
         for n in FILES_EXT {
             files.insert(n.to_string(), parse_file(dir, n));
+        }
+    }
+    // ---- the pre-pass: checks that make the translation fail closed (check.rs).  A problem in
+    // lib.rs / table.rs or in a file that holds declarations of rules 9-10 makes the whole output
+    // meaningless (exit 2); a problem in another file omits the functions of that file (and, through
+    // `limb_ok`, everything built on the vector types for bigint.rs / stackvec.rs / heapvec.rs /
+    // table_small.rs).
+    let known = known_lib();
+    let mut file_problems: HashMap<String, String> = HashMap::new();
+    {
+        let lib = parse_file(dir, "lib.rs");
+        let table = parse_file(dir, "table.rs");
+        let mut modules: Vec<&str> = FILES_SRC.iter().map(|f| f.trim_end_matches(".rs")).collect();
+        modules.push("table");
+        if ext {
+            modules.extend(FILES_EXT.iter().map(|f| f.trim_end_matches(".rs")));
+        }
+        let mut p = check::check_file("lib.rs", &lib, &known);
+        p.extend(check::check_modules(&lib, &modules));
+        // the modules that are not read may not contain impls for the mapped types
+        for m in check::declared_modules(&lib) {
+            if modules.contains(&m.as_str()) {
+                continue;
+            }
+            let f = parse_file(dir, &format!("{}.rs", m));
+            if FILES_EXT.contains(&format!("{}.rs", m).as_str()) {
+                // `rs2coq <src-dir>` (Src.v only) does not translate these files, but an impl in
+                // them can still change what a method of a shared type means: same pre-pass
+                if let Some(e) = check::check_file(&format!("{}.rs", m), &f, &known).first() {
+                    fail(format!("{}.rs: {}", m, e));
+                }
+            } else if let Some(e) = check::check_unread(&f).first() {
+                fail(format!("{}.rs: {}", m, e));
+            }
+        }
+        if let Some(e) = p.first() {
+            fail(format!("lib.rs: {}", e));
+        }
+        if let Some(e) = check::check_file("table.rs", &table, &known).first() {
+            fail(format!("table.rs: {}", e));
+        }
+        let mut names: Vec<&String> = files.keys().collect();
+        names.sort();
+        for name in names {
+            let p = check::check_file(name, &files[name], &known);
+            if let Some(e) = p.first() {
+                if matches!(name.as_str(), "num.rs" | "extended_float.rs" | "number.rs" | "bellerophon.rs" | "table_lemire.rs") {
+                    fail(format!("{}: {}", name, e));
+                }
+                eprintln!("rs2coq: {}: {} (the functions of this file are omitted)", name, e);
+                file_problems.insert(name.clone(), e.clone());
+            }
         }
     }
     // ---- declarations the translation relies on
@@ -934,6 +1148,11 @@ fn main() {
         // rules 14, 20, 21, 22: what the extension relies on.  A declaration that changed does not
         // invalidate Src.v: the functions that depend on it are omitted instead.
         g.limb_ok = check_limb_decls(&files["bigint.rs"]);
+        for f in ["bigint.rs", "stackvec.rs", "heapvec.rs", "table_small.rs"] {
+            if let Some(e) = file_problems.get(f) {
+                g.limb_ok = Err(format!("{}: {}", f, e));
+            }
+        }
         if let Err(e) = &g.limb_ok {
             eprintln!("rs2coq: {}", e);
         }
@@ -963,17 +1182,24 @@ fn main() {
         }
         for (fname, file) in &files {
             let mut m = HashMap::new();
+            let mut dup: Vec<String> = vec![];
             for it in &file.items {
                 if let syn::Item::Macro(im) = it {
                     if im.mac.path.is_ident("macro_rules") {
                         match macros::parse_macro_rules(im) {
                             Ok((n, d)) => {
-                                m.insert(n, d);
+                                if m.insert(n.clone(), d).is_some() {
+                                    // rustc uses the textually preceding definition
+                                    dup.push(n);
+                                }
                             }
                             Err(e) => eprintln!("rs2coq: {}: {} (its uses will not be translated)", fname, e),
                         }
                     }
                 }
+            }
+            for n in dup {
+                m.remove(&n);
             }
             g.macros.insert(fname.clone(), m);
         }
@@ -1011,6 +1237,11 @@ fn main() {
             let parsed = std::fs::read_to_string(&path)
                 .map_err(|e| format!("cannot read {}: {}", path, e))
                 .and_then(|src| syn::parse_file(&src).map_err(|e| format!("{}: parse error: {}", path, e)));
+            // the pre-pass, with the front-end's own names
+            let parsed = parsed.and_then(|f| match check::check_file(fkey, &f, &known_front(fkey)).first() {
+                Some(e) => Err(format!("{}: {}", rel, e)),
+                None => Ok(f),
+            });
             match parsed {
                 Ok(f) => {
                     for (name, fuels) in FRONT_FNS.iter() {
@@ -1043,6 +1274,8 @@ fn main() {
         let key = if owner.is_empty() { name.to_string() } else { format!("{}::{}", owner, name) };
         let table_key = if owner.is_empty() { format!("{}:{}", file, name) } else { key.clone() };
         let res = match find_fn(&files[file], owner, name) {
+            _ if file_problems.contains_key(file) => Err(file_problems[file].clone()),
+            Some(_) if count_fn(&files[file], owner, name) != 1 => Err("the function is defined more than once".to_string()),
             Some((sig, body)) => translate(&g, tg, sig, body),
             None => Err("function not found in the source file".to_string()),
         };
